@@ -322,6 +322,11 @@ func main() {
 	replay := flag.String("replay", "", "replay a violation file instead of searching")
 	only := flag.String("scenario", "", "only scenarios whose name contains this (diagnostics; evidence then covers only those)")
 	flag.Parse()
+	if *prop == "C03" {
+		// the first repository of this process is one of another network (see realSplitPart): what it
+		// was configured with must not reach the mainnet repositories created afterwards
+		otherNetworkFirst()
+	}
 	if os.Getenv("VERIF_TIER") != "" && *tier == "" {
 		*tier = os.Getenv("VERIF_TIER")
 	}
